@@ -149,6 +149,9 @@ static void VA3__ZSt24__throw_out_of_range_fmtPKcz(u8 *f, u64 a, u64 b) { (void)
 #ifdef USES_verif_symbolic_phase
 static void M_verif_symbolic_phase(void) { verif_symbolic = 1; }
 #endif
+#ifdef USES_verif_nogrow
+static void M_verif_nogrow(void *p) { VERIF_MODEL(verif_nogrow_n < 8, "too many verif_nogrow registrations"); verif_nogrow_tab[verif_nogrow_n++] = p; }
+#endif
 
 /* ---------------------------------------------------------------- libc */
 #ifdef USES_memcmp
@@ -204,7 +207,7 @@ static inline u8 *verif_str_create(u64 *capacity, u64 old_capacity, u64 cs) {
 }
 static inline void verif_str_dispose(struct verif_string *S) { if (!verif_str_is_local(S)) free(S->p); }
 static inline void verif_str_mutate(struct verif_string *S, u64 pos, u64 len1, const u8 *s, u64 len2, u64 cs) {
-  VERIF_BOUND(!verif_symbolic, "string growth in the symbolic phase (pre-sized capacity exceeded)");
+  VERIF_BOUND(!(verif_symbolic && verif_is_nogrow(S)), "growth of a pre-sized string in the symbolic phase (capacity bound exceeded)");
   u64 how_much = S->size - pos - len1;
   u64 new_cap = S->size + len2 - len1;
   u8 *r = verif_str_create(&new_cap, verif_str_capacity(S, cs), cs);
@@ -257,7 +260,7 @@ static inline void verif_str_erase(struct verif_string *S, u64 pos, u64 n, u64 c
 static inline void verif_str_reserve(struct verif_string *S, u64 n, u64 cs) {
   u64 cap = verif_str_capacity(S, cs);
   if (n <= cap) return;
-  VERIF_BOUND(!verif_symbolic, "string reserve growth in the symbolic phase");
+  VERIF_BOUND(!(verif_symbolic && verif_is_nogrow(S)), "reserve growth of a pre-sized string in the symbolic phase");
   u8 *t = verif_str_create(&n, cap, cs);
   if (VERIF_EXC) return;
   verif_memcpy(t, S->p, (S->size + 1) * cs);
@@ -268,7 +271,7 @@ static inline void verif_str_assign(struct verif_string *S, struct verif_string 
   if (S == O) return;
   u64 rs = O->size, cap = verif_str_capacity(S, cs);
   if (rs > cap) {
-    VERIF_BOUND(!verif_symbolic, "string assign growth in the symbolic phase");
+    VERIF_BOUND(!(verif_symbolic && verif_is_nogrow(S)), "assign growth of a pre-sized string in the symbolic phase");
     u64 nc = rs; u8 *t = verif_str_create(&nc, cap, cs);
     if (VERIF_EXC) return;
     verif_str_dispose(S); S->p = t; S->u.cap = nc;
@@ -325,4 +328,230 @@ static void M__ZNSt7__cxx1112basic_stringIDiSt11char_traitsIDiESaIDiEE9_M_mutate
 #endif
 #ifdef USES__ZNSt7__cxx1112basic_stringIwSt11char_traitsIwESaIwEE9_M_mutateEmmPKwm
 static void M__ZNSt7__cxx1112basic_stringIwSt11char_traitsIwESaIwEE9_M_mutateEmmPKwm(void *S, u64 pos, u64 l1, void *s, u64 l2) { verif_str_mutate(VSTR(S), pos, l1, (const u8 *)s, l2, 4); }
+#endif
+
+/* ---------------------------------------------------------------- iostream (libstdc++ x86-64 layout, measured)
+ * ios_base: state word at +32, exception mask at +28; basic_ios<char>: streambuf* at +232;
+ * basic_streambuf<char>: in_beg +8, in_cur +16, in_end +24, out_beg +32, out_cur +40, out_end +48; istream: gcount at +8.
+ * The istream/ostream pointer given to these functions is the stream subobject; its vptr[-3] holds the offset of the
+ * virtual base basic_ios (taken from the vtable clang generated for the harness stream class). */
+#define VIOS_GOOD 0
+#define VIOS_BAD 1
+#define VIOS_EOF 2
+#define VIOS_FAIL 4
+static inline u8 *verif_ios_of(void *stream) {
+  u8 *self = (u8 *)stream;
+  u8 **vptr = *(u8 ***)self;
+  s64 off = (s64)(uintptr_t)vptr[-3];
+  return self + off;
+}
+static inline u32 *verif_ios_state(u8 *ios) { return (u32 *)(ios + 32); }
+static inline u8 *verif_ios_sb(u8 *ios) { return *(u8 **)(ios + 232); }
+static inline void verif_ios_setstate(u8 *ios, u32 st) {
+  *verif_ios_state(ios) |= st;
+  VERIF_MODEL((*(u32 *)(ios + 28) & *verif_ios_state(ios)) == 0, "stream exception mask set: ios_base::failure not modelled");
+}
+struct verif_sb { void *vptr; u8 *in_beg, *in_cur, *in_end, *out_beg, *out_cur, *out_end; };
+#ifdef USES__ZNSt8ios_baseC2Ev
+static void M__ZNSt8ios_baseC2Ev(void *self) { u8 *p = (u8 *)self; memset(p + 8, 0, 208); }
+#endif
+#ifdef USES__ZNSt8ios_baseD2Ev
+static void M__ZNSt8ios_baseD2Ev(void *self) { (void)self; }
+#endif
+#ifdef USES__ZNSt9basic_iosIcSt11char_traitsIcEE4initEPSt15basic_streambufIcS1_E
+static void M__ZNSt9basic_iosIcSt11char_traitsIcEE4initEPSt15basic_streambufIcS1_E(void *ios, void *sb) {
+  u8 *p = (u8 *)ios;
+  memset(p + 216, 0, 48);
+  *(void **)(p + 232) = sb;
+  *(u32 *)(p + 28) = VIOS_GOOD;
+  *(u32 *)(p + 32) = sb ? VIOS_GOOD : VIOS_BAD;
+}
+#endif
+#ifdef USES__ZNSt9basic_iosIcSt11char_traitsIcEE5clearESt12_Ios_Iostate
+static void M__ZNSt9basic_iosIcSt11char_traitsIcEE5clearESt12_Ios_Iostate(void *ios, u32 st) {
+  u8 *p = (u8 *)ios;
+  *(u32 *)(p + 32) = verif_ios_sb(p) ? st : (st | VIOS_BAD);
+  VERIF_MODEL((*(u32 *)(p + 28) & *(u32 *)(p + 32)) == 0, "stream exception mask set: ios_base::failure not modelled");
+}
+#endif
+#ifdef USES__ZNSt6localeC1Ev
+static void M__ZNSt6localeC1Ev(void *self) { *(void **)self = 0; }
+#endif
+#ifdef USES__ZNSt6localeD1Ev
+static void M__ZNSt6localeD1Ev(void *self) { (void)self; }
+#endif
+/* optional fault injection (C20): the stream turns bad once `verif_stream_fail_at` bytes have been transferred */
+static s64 verif_stream_fail_at = -1;
+static u64 verif_stream_xfer;
+#ifdef USES__ZNSi4readEPcl
+static void *M__ZNSi4readEPcl(void *self, void *dst, s64 n) {
+  u8 *ios = verif_ios_of(self);
+  *(s64 *)((u8 *)self + 8) = 0;                         /* _M_gcount */
+  if (*verif_ios_state(ios) != VIOS_GOOD) { verif_ios_setstate(ios, VIOS_FAIL); return self; }   /* sentry */
+  struct verif_sb *sb = (struct verif_sb *)verif_ios_sb(ios);
+  s64 avail = (s64)(sb->in_end - sb->in_cur);
+  s64 k = n < avail ? n : avail;
+  if (k < 0) k = 0;
+  if (verif_stream_fail_at >= 0 && (s64)verif_stream_xfer + k > verif_stream_fail_at) {
+    k = verif_stream_fail_at - (s64)verif_stream_xfer; if (k < 0) k = 0;
+    verif_memcpy(dst, sb->in_cur, (u64)k); sb->in_cur += k; verif_stream_xfer += (u64)k;
+    *(s64 *)((u8 *)self + 8) = k;
+    verif_ios_setstate(ios, VIOS_BAD);
+    return self;
+  }
+  verif_memcpy(dst, sb->in_cur, (u64)k);
+  sb->in_cur += k; verif_stream_xfer += (u64)k;
+  *(s64 *)((u8 *)self + 8) = k;
+  if (k != n) verif_ios_setstate(ios, VIOS_EOF | VIOS_FAIL);
+  return self;
+}
+#endif
+#ifdef USES__ZNSi4peekEv
+static s32 M__ZNSi4peekEv(void *self) {
+  u8 *ios = verif_ios_of(self);
+  *(s64 *)((u8 *)self + 8) = 0;
+  if (*verif_ios_state(ios) != VIOS_GOOD) { verif_ios_setstate(ios, VIOS_FAIL); return -1; }
+  struct verif_sb *sb = (struct verif_sb *)verif_ios_sb(ios);
+  if (sb->in_cur == sb->in_end) { verif_ios_setstate(ios, VIOS_EOF); return -1; }
+  return (s32)*sb->in_cur;
+}
+#endif
+struct verif_ret2 { u64 a, b; };
+#ifdef USES__ZNSi5tellgEv
+static struct verif_ret2 M__ZNSi5tellgEv(void *self) {
+  u8 *ios = verif_ios_of(self);
+  struct verif_ret2 r; r.b = 0;
+  if (*verif_ios_state(ios) & (VIOS_BAD | VIOS_FAIL)) { r.a = (u64)-1; return r; }
+  struct verif_sb *sb = (struct verif_sb *)verif_ios_sb(ios);
+  r.a = (u64)(sb->in_cur - sb->in_beg);
+  return r;
+}
+#endif
+#ifdef USES__ZNSi5seekgESt4fposI11__mbstate_tE
+static void *M__ZNSi5seekgESt4fposI11__mbstate_tE(void *self, u64 off, u64 st) {
+  (void)st;
+  u8 *ios = verif_ios_of(self);
+  /* C++11: seekg first clears eofbit; it is a no-op when fail() */
+  *verif_ios_state(ios) &= ~(u32)VIOS_EOF;
+  if (*verif_ios_state(ios) & (VIOS_BAD | VIOS_FAIL)) return self;
+  struct verif_sb *sb = (struct verif_sb *)verif_ios_sb(ios);
+  s64 size = (s64)(sb->in_end - sb->in_beg);
+  if ((s64)off < 0 || (s64)off > size) { verif_ios_setstate(ios, VIOS_FAIL); return self; }
+  sb->in_cur = sb->in_beg + (s64)off;
+  return self;
+}
+#endif
+#ifdef USES__ZNSo3putEc
+static void *M__ZNSo3putEc(void *self, u8 c) {
+  u8 *ios = verif_ios_of(self);
+  if (*verif_ios_state(ios) != VIOS_GOOD) { verif_ios_setstate(ios, VIOS_FAIL); return self; }   /* sentry */
+  struct verif_sb *sb = (struct verif_sb *)verif_ios_sb(ios);
+  if (sb->out_cur == sb->out_end || (verif_stream_fail_at >= 0 && (s64)verif_stream_xfer >= verif_stream_fail_at)) { verif_ios_setstate(ios, VIOS_BAD); return self; }
+  *sb->out_cur++ = c; verif_stream_xfer++;
+  return self;
+}
+#endif
+#ifdef USES__ZNSo5writeEPKcl
+static void *M__ZNSo5writeEPKcl(void *self, void *src, s64 n) {
+  u8 *ios = verif_ios_of(self);
+  if (*verif_ios_state(ios) != VIOS_GOOD) { verif_ios_setstate(ios, VIOS_FAIL); return self; }
+  struct verif_sb *sb = (struct verif_sb *)verif_ios_sb(ios);
+  s64 room = (s64)(sb->out_end - sb->out_cur);
+  if (verif_stream_fail_at >= 0 && verif_stream_fail_at - (s64)verif_stream_xfer < room) room = verif_stream_fail_at - (s64)verif_stream_xfer;
+  if (room < 0) room = 0;
+  s64 k = n < room ? n : room;
+  if (k < 0) k = 0;
+  verif_memcpy(sb->out_cur, src, (u64)k);
+  sb->out_cur += k; verif_stream_xfer += (u64)k;
+  if (k != n) verif_ios_setstate(ios, VIOS_BAD);
+  return self;
+}
+#endif
+/* virtual members of std::streambuf referenced from the harness streambuf vtables: never called (read/write/seek are modelled above) */
+#define VERIF_SB_UNUSED(name, ret, params) static ret M_##name params { VERIF_MODEL(0, "unexpected virtual call into std::streambuf: " #name); return (ret)0; }
+#ifdef USES__ZNSt15basic_streambufIcSt11char_traitsIcEE5imbueERKSt6locale
+static void M__ZNSt15basic_streambufIcSt11char_traitsIcEE5imbueERKSt6locale(void *a, void *b) { (void)a; (void)b; }
+#endif
+#ifdef USES__ZNSt15basic_streambufIcSt11char_traitsIcEE6setbufEPcl
+VERIF_SB_UNUSED(_ZNSt15basic_streambufIcSt11char_traitsIcEE6setbufEPcl, void *, (void *a, void *b, s64 c))
+#endif
+#ifdef USES__ZNSt15basic_streambufIcSt11char_traitsIcEE4syncEv
+VERIF_SB_UNUSED(_ZNSt15basic_streambufIcSt11char_traitsIcEE4syncEv, s32, (void *a))
+#endif
+#ifdef USES__ZNSt15basic_streambufIcSt11char_traitsIcEE9showmanycEv
+VERIF_SB_UNUSED(_ZNSt15basic_streambufIcSt11char_traitsIcEE9showmanycEv, s64, (void *a))
+#endif
+#ifdef USES__ZNSt15basic_streambufIcSt11char_traitsIcEE6xsgetnEPcl
+VERIF_SB_UNUSED(_ZNSt15basic_streambufIcSt11char_traitsIcEE6xsgetnEPcl, s64, (void *a, void *b, s64 c))
+#endif
+#ifdef USES__ZNSt15basic_streambufIcSt11char_traitsIcEE9underflowEv
+VERIF_SB_UNUSED(_ZNSt15basic_streambufIcSt11char_traitsIcEE9underflowEv, s32, (void *a))
+#endif
+#ifdef USES__ZNSt15basic_streambufIcSt11char_traitsIcEE5uflowEv
+VERIF_SB_UNUSED(_ZNSt15basic_streambufIcSt11char_traitsIcEE5uflowEv, s32, (void *a))
+#endif
+#ifdef USES__ZNSt15basic_streambufIcSt11char_traitsIcEE9pbackfailEi
+VERIF_SB_UNUSED(_ZNSt15basic_streambufIcSt11char_traitsIcEE9pbackfailEi, s32, (void *a, s32 b))
+#endif
+#ifdef USES__ZNSt15basic_streambufIcSt11char_traitsIcEE6xsputnEPKcl
+VERIF_SB_UNUSED(_ZNSt15basic_streambufIcSt11char_traitsIcEE6xsputnEPKcl, s64, (void *a, void *b, s64 c))
+#endif
+#ifdef USES__ZNSt15basic_streambufIcSt11char_traitsIcEE8overflowEi
+VERIF_SB_UNUSED(_ZNSt15basic_streambufIcSt11char_traitsIcEE8overflowEi, s32, (void *a, s32 b))
+#endif
+#ifdef USES__ZNSt15basic_streambufIcSt11char_traitsIcEE7seekoffElSt12_Ios_SeekdirSt13_Ios_Openmode
+static struct verif_ret2 M__ZNSt15basic_streambufIcSt11char_traitsIcEE7seekoffElSt12_Ios_SeekdirSt13_Ios_Openmode(void *a, s64 b, u32 c, u32 d) { struct verif_ret2 r; r.a = (u64)-1; r.b = 0; VERIF_MODEL(0, "unexpected virtual call streambuf::seekoff"); return r; }
+#endif
+#ifdef USES__ZNSt15basic_streambufIcSt11char_traitsIcEE7seekposESt4fposI11__mbstate_tESt13_Ios_Openmode
+static struct verif_ret2 M__ZNSt15basic_streambufIcSt11char_traitsIcEE7seekposESt4fposI11__mbstate_tESt13_Ios_Openmode(void *a, u64 b, u64 b2, u32 d) { struct verif_ret2 r; r.a = (u64)-1; r.b = 0; VERIF_MODEL(0, "unexpected virtual call streambuf::seekpos"); return r; }
+#endif
+
+/* destructors of the libstdc++ stream classes referenced from harness vtables / destructor chains: nothing to release in the models */
+#ifdef USES__ZNSoD0Ev
+static void M__ZNSoD0Ev(void *self) { (void)self; }
+#endif
+#ifdef USES__ZNSoD1Ev
+static void M__ZNSoD1Ev(void *self) { (void)self; }
+#endif
+#ifdef USES__ZNSoD2Ev
+static void M__ZNSoD2Ev(void *self) { (void)self; }
+#endif
+#ifdef USES__ZTv0_n24_NSoD0Ev
+static void M__ZTv0_n24_NSoD0Ev(void *self) { (void)self; }
+#endif
+#ifdef USES__ZTv0_n24_NSoD1Ev
+static void M__ZTv0_n24_NSoD1Ev(void *self) { (void)self; }
+#endif
+#ifdef USES__ZNSiD0Ev
+static void M__ZNSiD0Ev(void *self) { (void)self; }
+#endif
+#ifdef USES__ZNSiD1Ev
+static void M__ZNSiD1Ev(void *self) { (void)self; }
+#endif
+#ifdef USES__ZNSiD2Ev
+static void M__ZNSiD2Ev(void *self) { (void)self; }
+#endif
+#ifdef USES__ZTv0_n24_NSiD0Ev
+static void M__ZTv0_n24_NSiD0Ev(void *self) { (void)self; }
+#endif
+#ifdef USES__ZTv0_n24_NSiD1Ev
+static void M__ZTv0_n24_NSiD1Ev(void *self) { (void)self; }
+#endif
+#ifdef USES__ZNSt15basic_streambufIcSt11char_traitsIcEED2Ev
+static void M__ZNSt15basic_streambufIcSt11char_traitsIcEED2Ev(void *self) { (void)self; }
+#endif
+#ifdef USES__ZNSt15basic_streambufIcSt11char_traitsIcEED1Ev
+static void M__ZNSt15basic_streambufIcSt11char_traitsIcEED1Ev(void *self) { (void)self; }
+#endif
+#ifdef USES__ZNSt15basic_streambufIcSt11char_traitsIcEED0Ev
+static void M__ZNSt15basic_streambufIcSt11char_traitsIcEED0Ev(void *self) { (void)self; }
+#endif
+#ifdef USES__ZNSt9basic_iosIcSt11char_traitsIcEED2Ev
+static void M__ZNSt9basic_iosIcSt11char_traitsIcEED2Ev(void *self) { (void)self; }
+#endif
+#ifdef USES__ZNSt9basic_iosIcSt11char_traitsIcEED1Ev
+static void M__ZNSt9basic_iosIcSt11char_traitsIcEED1Ev(void *self) { (void)self; }
+#endif
+#ifdef USES__ZNSt9basic_iosIcSt11char_traitsIcEED0Ev
+static void M__ZNSt9basic_iosIcSt11char_traitsIcEED0Ev(void *self) { (void)self; }
 #endif
